@@ -11,6 +11,10 @@ import (
 	"time"
 )
 
+// Stdout is the process's original standard output; engines may redirect
+// os.Stdout to silence debug prints of the code under test.
+var Stdout = os.Stdout
+
 // ReplayFile is what a violation is reported as.
 type ReplayFile struct {
 	Property  string   `json:"property"`
@@ -238,12 +242,12 @@ func tailTrace(tr []string, n int) []string {
 func replay(t *testing.T, e Engine, path string) {
 	b, err := os.ReadFile(path)
 	if err != nil {
-		fmt.Printf("REPLAY-ERROR cannot read %s: %v\n", path, err)
+		fmt.Fprintf(Stdout, "REPLAY-ERROR cannot read %s: %v\n", path, err)
 		os.Exit(2)
 	}
 	var rf ReplayFile
 	if err := json.Unmarshal(b, &rf); err != nil {
-		fmt.Printf("REPLAY-ERROR cannot parse %s: %v\n", path, err)
+		fmt.Fprintf(Stdout, "REPLAY-ERROR cannot parse %s: %v\n", path, err)
 		os.Exit(2)
 	}
 	var tape *Tape
@@ -255,15 +259,15 @@ func replay(t *testing.T, e Engine, path string) {
 	c := execRun(t, e, rf.Property, rf.Tier, tape, true)
 	if os.Getenv("VERIF_REPLAY_TRACE") != "" {
 		for _, l := range c.Trace {
-			fmt.Println(l)
+			fmt.Fprintln(Stdout, l)
 		}
 	}
 	for _, v := range c.Viol {
 		if v.Prop == rf.Property && (rf.Rule == "" || v.Rule == rf.Rule) {
 			same := fmt.Sprintf("%016x", c.Hash()) == rf.TraceHash
-			fmt.Printf("REPLAY-REPRODUCED property=%s rule=%s key=%s same_trace=%v msg=%s\n", v.Prop, v.Rule, v.Key, same, v.Msg)
+			fmt.Fprintf(Stdout, "REPLAY-REPRODUCED property=%s rule=%s key=%s same_trace=%v msg=%s\n", v.Prop, v.Rule, v.Key, same, v.Msg)
 			return
 		}
 	}
-	fmt.Printf("REPLAY-NOT-REPRODUCED property=%s rule=%s (violations now: %d)\n", rf.Property, rf.Rule, len(c.Viol))
+	fmt.Fprintf(Stdout, "REPLAY-NOT-REPRODUCED property=%s rule=%s (violations now: %d)\n", rf.Property, rf.Rule, len(c.Viol))
 }
